@@ -58,6 +58,8 @@ enum L2Class {
     Broadcast,
     Multicast,
     OtherPan,
+    /// foreign PAN, link-layer broadcast destination 0xffff
+    OtherPanBroadcast,
     BroadcastPan,
 }
 
@@ -229,6 +231,7 @@ impl<'a> Inj<'a> {
                     L2Class::OtherUnicast => (PAN, Addr154::Ext([2, 0, 0, 0, 0, 0, 0, 0x55])),
                     L2Class::Broadcast | L2Class::Multicast => (PAN, Addr154::Short([0xff, 0xff])),
                     L2Class::OtherPan => (0x1234, Addr154::Ext(V_LL8)),
+                    L2Class::OtherPanBroadcast => (0x1234, Addr154::Short([0xff, 0xff])),
                     L2Class::BroadcastPan => (0xffff, Addr154::Ext(V_LL8)),
                 };
                 self.seq154 = self.seq154.wrapping_add(1);
@@ -362,7 +365,7 @@ fn body(c: &mut Inj, thorough: bool) -> Result<(), Violation> {
         let l2 = match c.medium {
             Medium::Ip => L2Class::Own,
             Medium::Ethernet => *c.tape.pick(&[L2Class::Own, L2Class::Own, L2Class::OtherUnicast, L2Class::Broadcast, L2Class::Multicast]),
-            Medium::Ieee802154 => *c.tape.pick(&[L2Class::Own, L2Class::Own, L2Class::OtherUnicast, L2Class::Broadcast, L2Class::OtherPan, L2Class::BroadcastPan]),
+            Medium::Ieee802154 => *c.tape.pick(&[L2Class::Own, L2Class::Own, L2Class::OtherUnicast, L2Class::Broadcast, L2Class::OtherPan, L2Class::BroadcastPan, L2Class::OtherPanBroadcast]),
         };
         let dst = c.dst_addr(dc, v6);
         let src = c.src_addr(sc, v6);
@@ -414,7 +417,7 @@ fn body(c: &mut Inj, thorough: bool) -> Result<(), Violation> {
             (Medium::Ip, _) => true,
             (Medium::Ethernet, L2Class::OtherUnicast) => false,
             (Medium::Ethernet, _) => true,
-            (Medium::Ieee802154, L2Class::OtherPan) => false,
+            (Medium::Ieee802154, L2Class::OtherPan) | (Medium::Ieee802154, L2Class::OtherPanBroadcast) => false,
             (Medium::Ieee802154, _) => true,
         };
         let l3_ours = match dc {
